@@ -291,6 +291,14 @@ package server
 //@ func (s *Server) PublishTunnel(ctx context.Context, req *protocol.PublishTunnelRequest) (resp *protocol.PublishTunnelResponse, err error)
 //@   safety off
 //@   opt frame=off
+//@   ghost leaseTok uint64 = 0
+//@   ghost leased bool = false
+//@   ghost held bool = false
+//@   at after call Acquire#1: ghost leaseTok := callresult0
+//@   at after call Acquire#1: ghost leased := callresult1 == nil
+//@   at defer Release#1: assert the-clients-lease-is-held-until-the-rpc-returns: leased && !held && callarg2 == leaseTok
+//@   at defer Release#1: ghost held := true
+//@   at call Release#?: assert the-lease-is-never-released-before-the-work-is-done: false
 //@   requires s.Chord != nil && req != nil
 //@   ghost aerr error = nil
 //@   ghost certToken *protocol.ClientToken = nil
@@ -303,7 +311,7 @@ package server
 //@   at after call extractAuthenticated#1: ghost certToken := callresult0
 //@   at after call extractAuthenticated#1: ghost certClient := callresult1
 //@   at call Acquire#1: assert lease-is-the-callers: aerr == nil && str(callarg1) == tun.ClientLeaseKey(certToken)
-//@   at call PrefixContains#1: assert ownership-is-checked-against-the-callers-registrations: aerr == nil && str(callarg1) == tun.ClientHostnamesPrefix(certToken) && str(callarg2) == req.Hostname
+//@   at call PrefixContains#1: assert ownership-is-checked-against-the-callers-registrations: aerr == nil && str(callarg1) == tun.ClientHostnamesPrefix(certToken) && str(callarg2) == req.Hostname && held
 //@   at after call PrefixContains#1: ghost owned := callresult0 && callresult1 == nil
 //@   at after call PrefixContains#1: ghost checked := true
 //@   at call All#1: assert one-lookup-per-distinct-requested-server: checked && owned && len(callarg1) == len(requested) && 1 <= len(requested) && len(requested) <= 3
@@ -354,6 +362,14 @@ package server
 //@ func (s *Server) UnpublishTunnel(ctx context.Context, req *protocol.UnpublishTunnelRequest) (resp *protocol.UnpublishTunnelResponse, err error)
 //@   safety off
 //@   opt frame=off
+//@   ghost leaseTok uint64 = 0
+//@   ghost leased bool = false
+//@   ghost held bool = false
+//@   at after call Acquire#1: ghost leaseTok := callresult0
+//@   at after call Acquire#1: ghost leased := callresult1 == nil
+//@   at defer Release#1: assert the-clients-lease-is-held-until-the-rpc-returns: leased && !held && callarg2 == leaseTok
+//@   at defer Release#1: ghost held := true
+//@   at call Release#?: assert the-lease-is-never-released-before-the-work-is-done: false
 //@   requires s.Chord != nil && req != nil
 //@   ghost aerr error = nil
 //@   ghost certToken *protocol.ClientToken = nil
@@ -370,6 +386,14 @@ package server
 //@ func (s *Server) ReleaseTunnel(ctx context.Context, req *protocol.ReleaseTunnelRequest) (resp *protocol.ReleaseTunnelResponse, err error)
 //@   safety off
 //@   opt frame=off
+//@   ghost leaseTok uint64 = 0
+//@   ghost leased bool = false
+//@   ghost held bool = false
+//@   at after call Acquire#1: ghost leaseTok := callresult0
+//@   at after call Acquire#1: ghost leased := callresult1 == nil
+//@   at defer Release#1: assert the-clients-lease-is-held-until-the-rpc-returns: leased && !held && callarg2 == leaseTok
+//@   at defer Release#1: ghost held := true
+//@   at call Release#?: assert the-lease-is-never-released-before-the-work-is-done: false
 //@   requires s.Chord != nil && req != nil
 //@   ghost aerr error = nil
 //@   ghost certToken *protocol.ClientToken = nil
